@@ -223,6 +223,11 @@ pub struct ReferenceEncoder<W: Write> {
     writer: W,
 }
 
+/// Operand outside the range its match type can encode (the 5-bit / byte fields would wrap silently)
+fn out_of_range(what: &str, distance: usize, length: usize) -> ZiporaError {
+    ZiporaError::invalid_parameter(format!("{} cannot encode distance={} length={}", what, distance, length))
+}
+
 impl<W: Write> ReferenceEncoder<W> {
     /// Create a new reference encoder
     pub fn new(writer: W) -> Self {
@@ -236,7 +241,9 @@ impl<W: Write> ReferenceEncoder<W> {
     /// dio << byte_t(byte_t(DzType::RLE) | ((localmatchLen - 2) << 3));
     /// ```
     pub fn encode_rle(&mut self, length: usize) -> Result<()> {
-        debug_assert!(length >= 2 && length <= 33);
+        if !(2..=33).contains(&length) {
+            return Err(out_of_range("RLE", 1, length));
+        }
         let encoded = DzType::RLE.as_u8() | (((length - 2) << 3) as u8);
         self.writer.write_all(&[encoded])?;
         Ok(())
@@ -252,8 +259,9 @@ impl<W: Write> ReferenceEncoder<W> {
     /// );
     /// ```
     pub fn encode_near_short(&mut self, distance: usize, length: usize) -> Result<()> {
-        debug_assert!(distance >= 2 && distance <= 9);
-        debug_assert!(length >= 2 && length <= 5);
+        if !(2..=9).contains(&distance) || !(2..=5).contains(&length) {
+            return Err(out_of_range("NearShort", distance, length));
+        }
         let encoded = DzType::NearShort.as_u8()
             | (((length - 2) << 3) as u8)
             | (((distance - 2) << 5) as u8);
@@ -269,8 +277,9 @@ impl<W: Write> ReferenceEncoder<W> {
     /// dio << byte_t(j - localmatchPos - 2);
     /// ```
     pub fn encode_far1_short(&mut self, distance: usize, length: usize) -> Result<()> {
-        debug_assert!(distance >= 2 && distance <= 257);
-        debug_assert!(length >= 2 && length <= 33);
+        if !(2..=257).contains(&distance) || !(2..=33).contains(&length) {
+            return Err(out_of_range("Far1Short", distance, length));
+        }
         let encoded = DzType::Far1Short.as_u8() | (((length - 2) << 3) as u8);
         self.writer.write_all(&[encoded])?;
         self.writer.write_all(&[(distance - 2) as u8])?;
@@ -285,8 +294,9 @@ impl<W: Write> ReferenceEncoder<W> {
     /// dio << uint16_t(j - localmatchPos - 258);
     /// ```
     pub fn encode_far2_short(&mut self, distance: usize, length: usize) -> Result<()> {
-        debug_assert!(distance >= 258 && distance <= 258 + 65535);
-        debug_assert!(length >= 2 && length <= 33);
+        if !(258..=258 + 65535).contains(&distance) || !(2..=33).contains(&length) {
+            return Err(out_of_range("Far2Short", distance, length));
+        }
         let encoded = DzType::Far2Short.as_u8() | (((length - 2) << 3) as u8);
         self.writer.write_all(&[encoded])?;
         write_uint_bytes(&mut self.writer, (distance - 258) as u32, 2)?;
@@ -306,8 +316,9 @@ impl<W: Write> ReferenceEncoder<W> {
     /// dio << uint16_t(j - localmatchPos);
     /// ```
     pub fn encode_far2_long(&mut self, distance: usize, length: usize) -> Result<()> {
-        debug_assert!(distance <= 65535);
-        debug_assert!(length >= 34);
+        if distance > 65535 || length < 34 {
+            return Err(out_of_range("Far2Long", distance, length));
+        }
         
         if length <= 34 + 30 && (length - 34) <= 31 {
             let encoded = DzType::Far2Long.as_u8() | (((length - 34) << 3) as u8);
@@ -334,8 +345,10 @@ impl<W: Write> ReferenceEncoder<W> {
     /// WriteUint<3>(dio, j - localmatchPos);
     /// ```
     pub fn encode_far3_long(&mut self, distance: usize, length: usize) -> Result<()> {
-        debug_assert!(distance < (1 << 24));
-        debug_assert!(length >= 5); // Note: reference uses 5 as minimum for Far3Long
+        if distance >= (1 << 24) || length < 5 {
+            // Note: reference uses 5 as minimum for Far3Long
+            return Err(out_of_range("Far3Long", distance, length));
+        }
         
         if length <= 35 && (length - 5) <= 31 {
             let encoded = DzType::Far3Long.as_u8() | (((length - 5) << 3) as u8);
@@ -368,7 +381,10 @@ impl<W: Write> ReferenceEncoder<W> {
         g_offset_bits: usize,
         g_max_short_len: usize
     ) -> Result<()> {
-        debug_assert!(length >= 6); // MIN_GLOBAL_LENGTH
+        // MIN_GLOBAL_LENGTH = 6; the position field holds g_offset_bits bits
+        if length < 6 || (g_offset_bits < 32 && (dict_position as u64) >> g_offset_bits != 0) {
+            return Err(out_of_range("Global", dict_position as usize, length));
+        }
         
         let enc_len = length - 6; // Assuming MIN_GLOBAL_LENGTH = 6
         
